@@ -19,7 +19,16 @@
 //!     the EOF marker; on a failing sink (every k) the drop does not panic, and a failure that happened during the
 //!     explicit write/flush calls is reported by one of them.
 //!
-//! The same four checks run on histories that reach the writers through their other public entry points (module
+//! (e) every error kind meets every phase: the three (thorough: four) longest histories of each writer below a size
+//!     cap get EVERY `ERROR_KINDS` entry, sticky and transient, at every k (floors per kind x phase and per kind x
+//!     part of a BGZF block frame: frame header, CDATA, trailer, EOF marker);
+//! (f) staging destination (`FaultyWrite::with_staging`: written bytes are committed by a successful flush only):
+//!     every flush call of the healthy run is preceded by 1/2/3/4/7 consecutive `Interrupted` results, or fails with
+//!     every error kind (sticky, transient). Retrying and returning the error are both fine; whenever ALL calls return
+//!     Ok the committed (and the staged) bytes must be those of a healthy staging run. Histories that never flush the
+//!     destination are counted and not judged. On the unchanged tree every judged writer returns Err(Interrupted).
+//!
+//! The same checks run on histories that reach the writers through their other public entry points (module
 //! `alt`): the `sam::alignment::io::Write` trait alone (`finish(&header)` as the finishing call), the
 //! `noodles_util` alignment / variant writers, and the `io::writer::Builder`s that put a `BufWriter` or a boxed BGZF
 //! writer between the format writer and the sink.
@@ -1218,8 +1227,8 @@ fn gen_world(ctx: &Ctx) -> World {
     }
     hists.sort_by_key(|h| (h.item, h.drive));
     // per writer: the (up to) three longest histories below a size cap get every error kind at every position
-    let all_kinds_max = ctx.budget("all_kinds_max_calls", 700, 2500) as usize;
-    let all_kinds_per_writer = ctx.budget("all_kinds_per_writer", 3, 6) as usize;
+    let all_kinds_max = ctx.budget("all_kinds_max_calls", 700, 1500) as usize;
+    let all_kinds_per_writer = ctx.budget("all_kinds_per_writer", 3, 4) as usize;
     {
         let mut by_writer: BTreeMap<String, Vec<usize>> = BTreeMap::new();
         for (i, h) in hists.iter().enumerate() {
